@@ -78,7 +78,7 @@ class MetaRunner(object):
     def stop(self):
         """Stop all runners"""
         self._logger.debug("stop all runners")
-        for runner in self._runners.values():
+        for runner in list(self._runners.values()):
             runner.stop()
 
     async def _manage_runners(self):
@@ -100,6 +100,8 @@ class MetaRunner(object):
             raise
         finally:
             self.running.clear()
+            # all runners have ended: registrations for the next run are queued again
+            self._runners.clear()
 
     async def _launch_runners(self) -> List[asyncio.Task]:
         """Launch all runners inside the current `asyncio` event loop"""
